@@ -65,7 +65,8 @@ func genCase(t *rapid.T) Case {
 	}
 	c := Case{Powers: ps, Heights: rapid.IntRange(0, 3).Draw(t, "heights"), NTxs: rapid.IntRange(0, 3).Draw(t, "ntxs")}
 	if c.Heights >= 2 && rapid.Bool().Draw(t, "valchange") {
-		c.ValTx = rapid.IntRange(1, c.Heights-1).Draw(t, "valtxHeight")
+		// (also in the last block: the commit of that height must still be judged by the old set)
+		c.ValTx = rapid.IntRange(1, c.Heights).Draw(t, "valtxHeight")
 		if rapid.Bool().Draw(t, "valupd") {
 			c.ValUpd = rapid.Int64Range(1, 9).Draw(t, "valupdPower")
 		}
@@ -181,6 +182,45 @@ func runCase(c Case, x *h.Ctx) {
 	x.Labelf("heights:%d", c.Heights)
 	if c.ValTx > 0 {
 		x.Label("validator-set-changed")
+	}
+	// the validator sets the node validates against, checked against the committed history: a
+	// change made by block h is in force from height h+1 on; the commit of height h (embedded in
+	// block h+1) is to be judged by the set of height h
+	powersAt := func(height int) map[string]int64 {
+		m := map[string]int64{}
+		for i, p := range c.Powers {
+			m[string(sim.Key(i).PubKey().Address())] = p
+		}
+		if c.ValTx > 0 && height > c.ValTx {
+			m[string(sim.Key(spare).PubKey().Address())] = 2
+			if c.ValUpd > 0 {
+				m[string(sim.Key(0).PubKey().Address())] = c.ValUpd
+			}
+		}
+		return m
+	}
+	sameSet := func(vs *types.ValidatorSet, want map[string]int64) bool {
+		if vs.Size() != len(want) {
+			return false
+		}
+		for _, v := range vs.Validators {
+			if p, ok := want[string(v.Address)]; !ok || p != v.VotingPower {
+				return false
+			}
+		}
+		return true
+	}
+	if node.Store.Height() == int64(c.Heights) && c.Heights >= 1 {
+		if !sameSet(st.LastValidators, powersAt(c.Heights)) {
+			if x.Fail("last-validators-differ-from-committed-history", "after %d blocks (validator change in block %d) the node judges the commit of height %d by %v; the set in force at that height was %v", c.Heights, c.ValTx, c.Heights, st.LastValidators, powersAt(c.Heights)) {
+				return
+			}
+		}
+		if !sameSet(st.Validators, powersAt(c.Heights+1)) {
+			if x.Fail("validators-differ-from-committed-history", "after %d blocks (validator change in block %d) the node's validator set for height %d is %v; the committed history gives %v", c.Heights, c.ValTx, c.Heights+1, st.Validators, powersAt(c.Heights+1)) {
+				return
+			}
+		}
 	}
 	if len(c.Muts) == 0 {
 		x.Label("genuine-only")
